@@ -111,6 +111,12 @@ class Session(BusSession):
                 ops.append(['rel', l])
             if l != 'A':
                 ops.append(['disc', l])
+        # a call written in the same loop iteration in which its recipient's connection ends, both write orders
+        if self.is_open('A') and self.is_open('C') and not self.stalled:
+            for first in (0, 1):
+                ops.append(['race', first, ['send', 'A', 'uC', 'call', 0], 'C'])
+                if self.reg.owner(NAME) == 'C':
+                    ops.append(['race', first, ['send', 'A', 'N', 'call', 0], 'C'])
         if self.is_open('B'):
             ops.append(['drain'] if self.stalled else ['stall'])
         # batches: a send by A together with an ownership change / send by C, both write orders
@@ -123,7 +129,7 @@ class Session(BusSession):
 
     # ---- building and predicting -------------------------------------------
     def target_name(self, target):
-        return {'N': NAME, 'uB': self.uname['B'] if self.uname.get('B') else b':1.999', 'closed': self.closed_name, 'unowned': UNOWNED, 'bus': R.BUS}[target]
+        return {'N': NAME, 'uC': self.uname['C'] if self.uname.get('C') else b':1.998', 'uB': self.uname['B'] if self.uname.get('B') else b':1.999', 'closed': self.closed_name, 'unowned': UNOWNED, 'bus': R.BUS}[target]
 
     def build(self, op):
         _, l, target, kind, flags = op
@@ -369,6 +375,41 @@ class Session(BusSession):
                 clause = 'out-of-order' if sorted(map(repr, got)) == sorted(map(repr, self.backlog)) else ('not-delivered' if len(got) < len(self.backlog) else 'delivered-twice')
                 out.append(Violation(clause, 'after-stall', 'after resuming, B received %r, processing order was %r' % (got, self.backlog), None))
             self.backlog = []
+        elif kind == 'race':
+            first, snd, victim = op[1], op[2], op[3]
+            m, tok = self.build(snd)
+            cv = self.slots[victim]
+            if first == 0:
+                self.bus.send(self.slots[snd[1]], R.encode_message(m))
+                self.bus.h.cmd('CLOSE %d nopump' % cv)
+            else:
+                self.bus.h.cmd('CLOSE %d nopump' % cv)
+                self.bus.send(self.slots[snd[1]], R.encode_message(m))
+            self.slots[victim] = None
+            self.bus.pump()
+            self._distribute(self.bus.recvall())
+            self.settle()
+            self.reg.drop_connection(victim)
+            obs = self.observe()
+            self.hit('race-send-vs-close')
+            # whichever the bus handles first, the caller ends up with exactly one error for this call (undeliverable, or
+            # NoReply because the recipient went away with the call unanswered), and nobody else sees the call
+            errs = [it for it in obs.get(snd[1], []) if it[0] == 'err' and it[1] == m.serial]
+            # a call to the well-known name may instead reach the NEXT owner (the one that inherits the name when the
+            # victim's disconnect is processed first): then it is delivered exactly once there and there is no error
+            heir = self.reg.owner(NAME) if snd[2] == 'N' else None
+            got_by = [l for l, items in obs.items() if l != 'E' and any(it[0] == 'msg' and it[1] == tok for it in items)]
+            if heir is not None and got_by == [heir] and not (heir == 'B' and self.stalled):
+                self.hit('race-delivered-to-heir')
+                if errs:
+                    out.append(Violation('error-count', 'race-with-disconnect', '%r: delivered to the new owner %s AND %d errors at the caller' % (op, heir, len(errs)), None))
+            else:
+                if len(errs) != 1:
+                    out.append(Violation('error-count', 'race-with-disconnect', '%r: the caller received %d errors for a call whose recipient disconnected in the same loop iteration (delivered to %r)' % (op, len(errs), got_by), None))
+                for l in got_by:
+                    if l != snd[1]:
+                        out.append(Violation('delivered-to-wrong-connection', 'race-with-disconnect', '%r: %s received the call' % (op, l), None))
+            self.note_errors(obs, out, repr(op))
         elif kind == 'batch':
             first, o1, o2 = op[1], op[2], op[3]
             order = [o1, o2] if first == 0 else [o2, o1]
